@@ -341,12 +341,14 @@ print(json.dumps(out))
 def decorator_flags(chk):
     """_parse_kwargs (guppylang/decorator.py): the unitary / control / dagger / power keywords of
     @guppy(...), @guppy.declare(...), @guppy.comptime(...) become the function's UnitaryFlags: a flag
-    is set exactly when its keyword is given a TRUE value (absent and False both leave it unset); the
-    four keywords are consumed, any other keyword is a TypeError.  All 3^4 keyword combinations."""
+    is set exactly when its keyword is given a TRUE value (absent and False both leave it unset); any
+    other keyword is a TypeError.  The decorator object `guppy(**kw)` (_with_optional_kwargs) may be
+    applied to several functions: each gets the declared flags.  All 3^4 keyword combinations."""
     import itertools
     D = "guppylang.decorator"
     e = mk_engine(chk)
     e.func_info(D, "_parse_kwargs")
+    e.func_info(D, "_with_optional_kwargs")
     m = e.module(D)
     NAMES = ("unitary", "control", "dagger", "power")
     BIT = {"unitary": "Unitary", "control": "Control", "dagger": "Dagger", "power": "Power"}
@@ -357,13 +359,19 @@ def decorator_flags(chk):
                 kw = {k: v for k, v in zip(NAMES, combo) if v != "absent"}
                 for x in extra:
                     kw[x] = True
-                r = it.call(it.lookup_global(m, "_parse_kwargs"), [kw], {})
                 UF = it.lookup_global(e.module("guppylang_internals.tys.ty"), "UnitaryFlags")
                 want = 0
                 for k, v in zip(NAMES, combo):
                     if v is True:
                         want |= it.getattr(UF, BIT[k]).value
-                return r, want, kw
+                if extra:
+                    return it.call(it.lookup_global(m, "_parse_kwargs"), [kw], {}), want, None
+                # the decorator object guppy(**kw) applied to TWO functions: both get the declared flags
+                loc = it.exec_snippet(m, "def DEC(f, kwargs):\n    return (f, _parse_kwargs(kwargs))\n", {})
+                wrapper = it.call(it.lookup_global(m, "_with_optional_kwargs"), [loc["DEC"], (), kw], {})
+                r1 = it.call(wrapper, ["f1"], {})
+                r2 = it.call(wrapper, ["f2"], {})
+                return r1[1], want, r2
             paths = e.explore(t)
 
             def post(p, extra=extra):
@@ -371,10 +379,10 @@ def decorator_flags(chk):
                     return z3.BoolVal(p.kind == "raise" and p.raised(e, "TypeError"))
                 if p.kind != "return":
                     return z3.BoolVal(False)
-                r, want, kw = p.value
-                return z3.BoolVal(getattr(r, "value", None) == want and kw == {})
+                r, want, r2 = p.value
+                return z3.BoolVal(getattr(r, "value", None) == want and r2[0] == "f2" and getattr(r2[1], "value", None) == want)
             tag = ",".join(f"{k}={v}" for k, v in zip(NAMES, combo) if v != "absent") or "no-keywords"
-            chk.prove_paths(f"_parse_kwargs[{tag}{'+unknown-keyword' if extra else ''}]:flag-set<=>keyword-true;keywords-consumed;unknown-keyword->TypeError", paths, post, func=f"{D}:_parse_kwargs",
+            chk.prove_paths(f"_parse_kwargs[{tag}{'+unknown-keyword' if extra else ''}]:flag-set<=>keyword-true,also-for-the-second-function-the-same-decorator-object-is-applied-to;unknown-keyword->TypeError", paths, post, func=f"{D}:_parse_kwargs",
                             replay=lambda m_: {"script": REPLAY_KWARGS, "input": {}})
             n += 1
     chk.record("_parse_kwargs:combinations-explored", n >= 81, str(n), kind="reachability")
@@ -391,16 +399,25 @@ def plain(q: qubit) -> None: ...
 @guppy(dagger=True)
 def ctx(q: qubit) -> None:
     plain(q)
+dec = guppy(dagger=True)
+@dec
+def first(q: qubit) -> None:
+    plain(q)
+@dec
+def second(q: qubit) -> None:
+    plain(q)
 """
 d = tempfile.mkdtemp(dir=os.environ.get("TMPDIR", "/var/tmp")); fn = os.path.join(d, "replay_c24k.py"); open(fn, "w").write(src)
 spec = importlib.util.spec_from_file_location("replay_c24k", fn); m = importlib.util.module_from_spec(spec); sys.modules["replay_c24k"] = m
 try:
     spec.loader.exec_module(m)
-    try:
-        m.ctx.check(); accepted = True
-    except GuppyError:
-        accepted = False
-    out = {"violates": accepted, "accepted": accepted, "required": "rejected: `plain` is declared dagger=False and is called with a qubit from a dagger context"}
+    accepted = []
+    for name in ("ctx", "first", "second"):
+        try:
+            getattr(m, name).check(); accepted.append(name)
+        except GuppyError:
+            pass
+    out = {"violates": bool(accepted), "accepted": accepted, "required": "all three rejected: `plain` is declared dagger=False and is called with a qubit from a dagger context (first/second share one decorator object)"}
 except Exception as ex:
     out = {"violates": False, "error": repr(ex)[:300]}
 shutil.rmtree(d, ignore_errors=True)
